@@ -234,6 +234,9 @@ class Probe:
                 if "extract_child() may only be called" in str(e):
                     self.log.append("refused")
                 raise
+            except self.Cancel:
+                self.log.insert(mark, "full")       # the nested extraction did run in full before the BaseException unwound it
+                raise
             stub = a[1] and len(st.frames) == 0 and st.root is item and st.leaf is None and st.error is None
             if stub:
                 self.log.append("stub")
@@ -264,6 +267,9 @@ class Probe:
                 except RuntimeError as e:
                     if "extract_child() may only be called" in str(e):
                         self.log.append("refused")
+                    raise
+                except self.Cancel:
+                    self.log.insert(mark, "full")
                     raise
                 self.log.insert(mark, "full")
             finally:
